@@ -15,6 +15,7 @@ let () =
                 | "codec" -> M_codec.handle cmd args
                 | "db" -> M_db.handle cmd args
                 | "wal" -> M_wal.handle cmd args
+                | "raft" -> M_raft.handle cmd args
                 | "conc" -> M_conc.handle cmd args
                 | _ -> failwith ("unknown module " ^ m))
              | _ -> failwith "bad line"
